@@ -1,1 +1,63 @@
-//! Allocation ledger monitor (filled in later).
+//! Allocation ledger monitor: the harness' global allocator wraps `System` and counts live blocks and bytes.
+//! Conservation (live after dropping == live before building) is checked at quiescent points by C14/C18.
+//! Compiled out (`--no-default-features`) for the valgrind / LSan stages, which must see the plain allocator and
+//! must not be confused by an address-remembering monitor.
+
+#[cfg(feature = "ledger")]
+mod imp {
+    use std::alloc::{GlobalAlloc, Layout, System};
+    use std::sync::atomic::{AtomicIsize, Ordering::Relaxed};
+
+    pub struct Ledger;
+    static LIVE_BYTES: AtomicIsize = AtomicIsize::new(0);
+    static LIVE_BLOCKS: AtomicIsize = AtomicIsize::new(0);
+
+    unsafe impl GlobalAlloc for Ledger {
+        unsafe fn alloc(&self, l: Layout) -> *mut u8 {
+            let p = System.alloc(l);
+            if !p.is_null() {
+                LIVE_BYTES.fetch_add(l.size() as isize, Relaxed);
+                LIVE_BLOCKS.fetch_add(1, Relaxed);
+            }
+            p
+        }
+        unsafe fn alloc_zeroed(&self, l: Layout) -> *mut u8 {
+            let p = System.alloc_zeroed(l);
+            if !p.is_null() {
+                LIVE_BYTES.fetch_add(l.size() as isize, Relaxed);
+                LIVE_BLOCKS.fetch_add(1, Relaxed);
+            }
+            p
+        }
+        unsafe fn dealloc(&self, p: *mut u8, l: Layout) {
+            LIVE_BYTES.fetch_sub(l.size() as isize, Relaxed);
+            LIVE_BLOCKS.fetch_sub(1, Relaxed);
+            System.dealloc(p, l)
+        }
+        unsafe fn realloc(&self, p: *mut u8, l: Layout, n: usize) -> *mut u8 {
+            let q = System.realloc(p, l, n);
+            if !q.is_null() {
+                LIVE_BYTES.fetch_add(n as isize - l.size() as isize, Relaxed);
+            }
+            q
+        }
+    }
+
+    #[global_allocator]
+    static GLOBAL: Ledger = Ledger;
+
+    pub fn live() -> (isize, isize) {
+        (LIVE_BLOCKS.load(Relaxed), LIVE_BYTES.load(Relaxed))
+    }
+    pub const ENABLED: bool = true;
+}
+
+#[cfg(not(feature = "ledger"))]
+mod imp {
+    pub fn live() -> (isize, isize) {
+        (0, 0)
+    }
+    pub const ENABLED: bool = false;
+}
+
+pub use imp::{live, ENABLED};
